@@ -9,7 +9,7 @@
      exceptions are returned as the class of the first one raised;
    * `run_design`: the simulator's delta-cycle loop (sim/pysim.py step_design / commit, sim/_pyrtl.py wakers): one
      comb process and one process per clock domain for every module; a clock-domain process runs when its clock makes
-     its active edge or its asynchronous reset rises.
+     its active edge (the whole process) or its asynchronous reset rises alone (reset values only).
    No proofs here (Proofs/DslRawP.v). *)
 From Coq Require Import ZArith List Bool.
 From V.Model Require Import Bits Shape Ast Denote PyRTL PyEval Stmt Process Derived Dsl.
@@ -254,23 +254,38 @@ Definition design : Type := list (list (list stmt)).
 Definition run_comb (tab : sigtab) (mods : design) (st : slots) : slots :=
   fold_left (fun st m => comb_process tab (nth 0 m []) st) mods st.
 
-Definition run_sync (tab : sigtab) (doms : list domdesc) (mods : design) (st : slots) (k : nat) : slots :=
-  match nth_error doms k with
-  | None => st
-  | Some d => fold_left (fun st m => sync_process tab (nth (S k) m []) (d_rst d) st) mods st
+Definition run_sync (tab : sigtab) (mods : design) (k : nat) (d : domdesc) (st : slots) : slots :=
+  fold_left (fun st m => sync_process tab (nth (S k) m []) (d_rst d) st) mods st.
+
+(* a clock-domain process woken by the rising edge of its ASYNCHRONOUS reset alone (no active clock edge in the same
+   delta): it only loads the reset values — every driven signal that is not reset-less gets update(init, mask) — and
+   returns; the statements do not run *)
+Definition async_reset_process (tab : sigtab) (ss : list stmt) (st : slots) : slots :=
+  let m := stmts_mask ss in
+  {| s_curr := s_curr st;
+     s_next := fun i => if (m i =? 0) || sd_reset_less (tab i) then s_next st i
+                        else slot_update (s_next st i) (sd_init (tab i)) (update_mask (sd_shape (tab i)) (m i)) |}.
+
+Definition run_async_reset (tab : sigtab) (mods : design) (k : nat) (st : slots) : slots :=
+  fold_left (fun st m => async_reset_process tab (nth (S k) m []) st) mods st.
+
+(* edge_waker / clock_edge_waker: the process is woken when the signal CHANGES TO the polarity *)
+Definition clk_fires (old new : env) (d : domdesc) : bool :=
+  negb (old (d_clk d) =? new (d_clk d)) && (new (d_clk d) =? (if d_pos d then 1 else 0)).
+Definition rst_fires (old new : env) (d : domdesc) : bool :=
+  match d_rst d with
+  | Some r => d_async d && negb (old r =? new r) && (new r =? 1)
+  | None => false
   end.
 
-(* edge_waker: the process is woken when the signal CHANGES TO the polarity *)
-Definition dom_fires (old new : env) (d : domdesc) : bool :=
-  (negb (old (d_clk d) =? new (d_clk d)) && (new (d_clk d) =? (if d_pos d then 1 else 0)))
-  || match d_rst d with
-     | Some r => d_async d && negb (old r =? new r) && (new r =? 1)
-     | None => false
-     end.
-
-Definition fired (doms : list domdesc) (old new : env) : list nat :=
-  filter (fun k => match nth_error doms k with Some d => dom_fires old new d | None => false end)
-         (seq 0 (length doms)).
+(* the clock-domain processes woken by the change old -> new of the signal values *)
+Definition run_doms (tab : sigtab) (doms : list domdesc) (mods : design) (old new : env) (st : slots) : slots :=
+  fold_left (fun st kd =>
+               let '(k, d) := kd in
+               if clk_fires old new d then run_sync tab mods k d st
+               else if rst_fires old new d then run_async_reset tab mods k st
+               else st)
+            (combine (seq 0 (length doms)) doms) st.
 
 Definition env_eqb (n : nat) (a b : env) : bool := forallb (fun i => a i =? b i) (seq 0 n).
 
@@ -290,7 +305,7 @@ Definition apply_sets (l : list (nat * Z)) (st : slots) : slots :=
 Definition step (fuel n : nat) (tab : sigtab) (doms : list domdesc) (mods : design) (st : slots) (l : list (nat * Z))
   : slots * bool :=
   let st1 := apply_sets l st in
-  let st2 := commit (fold_left (run_sync tab doms mods) (fired doms (s_curr st) (s_curr st1)) (run_comb tab mods st1)) in
+  let st2 := commit (run_doms tab doms mods (s_curr st) (s_curr st1) (run_comb tab mods st1)) in
   settle fuel n tab mods st2.
 
 Definition init_slots (tab : sigtab) : slots :=
